@@ -399,6 +399,27 @@ pub fn axis<T: Flt>(src: &mut Src, n: usize, class: AxisClass, max_ratio_log2: O
         }
     }
     fix_increasing::<T>(&mut x);
+    // soundness of the generator itself: very long clustered / geometric axes can run out of the exponent range;
+    // such an axis is replaced by the part that is still finite, continued with unit steps of its last magnitude
+    if !x.iter().all(|v| v.is_finite()) || !x.windows(2).all(|w| w[0] < w[1]) {
+        let good = x.iter().position(|v| !v.is_finite() || v.abs() > 2f64.powi(T::EWIN)).unwrap_or(0).min(x.len());
+        if good < 2 {
+            for (i, v) in x.iter_mut().enumerate() {
+                *v = i as f64;
+            }
+        } else {
+            let h = x[good - 1] - x[good - 2];
+            for i in good..x.len() {
+                x[i] = x[i - 1] + h;
+            }
+            fix_increasing::<T>(&mut x);
+            if !x.iter().all(|v| v.is_finite()) || !x.windows(2).all(|w| w[0] < w[1]) {
+                for (i, v) in x.iter_mut().enumerate() {
+                    *v = i as f64;
+                }
+            }
+        }
+    }
     if class == AxisClass::Anchored && n >= 2 && x[n - 1] != (n - 1) as f64 {
         // rounding collided near the end: fall back to the plain index positions
         for (i, v) in x.iter_mut().enumerate() {
@@ -507,6 +528,28 @@ pub fn query_in_range<T: Flt>(src: &mut Src, x: &[f64]) -> (f64, QClass) {
 }
 
 /// trailing shape: 0..=max_axes axes with lengths from `lens`
+/// entropy for bulky parts of a case (long axes, wide data): expanded from ONE drawn word, so that the draws behind
+/// it are not starved; a pure function of the drawn word (replays do not depend on the run seed)
+pub fn expand(src: &mut Src, len: usize) -> Vec<u64> {
+    let mut h = crate::common::splitmix(src.next() ^ 0x5EED_B16C_A5E5);
+    (0..len)
+        .map(|_| {
+            h = crate::common::splitmix(h);
+            h
+        })
+        .collect()
+}
+
+/// trailing shape with many lanes (32..96): thresholds of vectorised / unrolled / chunked row processing
+pub fn wide_trailing(src: &mut Src, max_axes: usize) -> Vec<usize> {
+    match src.below(if max_axes >= 3 { 4 } else if max_axes >= 2 { 3 } else { 1 }) {
+        0 => vec![src.usize_in(32, 96)],
+        1 => vec![src.usize_in(4, 8), src.usize_in(8, 12)],
+        2 => vec![src.usize_in(33, 70), 1],
+        _ => vec![src.usize_in(2, 4), src.usize_in(4, 6), src.usize_in(4, 5)],
+    }
+}
+
 pub fn trailing_shape(src: &mut Src, max_axes: usize, lens: &[usize]) -> Vec<usize> {
     let k = src.usize_in(0, max_axes);
     (0..k).map(|_| src.pick(lens)).collect()
